@@ -205,6 +205,13 @@ pub fn canaries(seed: u64, pool: &Pool) -> Vec<(String, u8, SettingsSpec)> {
         v.push((f.1.clone(), 0, SettingsSpec::default()));
         v.push((f.1.clone(), 3, SettingsSpec::default()));
     }
+    for (i, t) in gen::big_windows(pool, 7000).into_iter().enumerate() {
+        v.push((t, if i % 2 == 0 { 0 } else { 2 }, SettingsSpec::default()));
+    }
+    for i in 0..4 {
+        let t = gen::sparse_grid(&mut rng, 72, 26, 5 + 3 * i);
+        v.push((t, (i % 5) as u8, SettingsSpec::default()));
+    }
     v
 }
 
